@@ -53,11 +53,27 @@ def props_file(pid):
     return os.path.join(LEAN_DIR, "MafModel", "Props", pid + ".lean")
 
 
+def props_modules(pid):
+    """Props/<pid>.lean and its companions Props/<pid><Suffix>.lean (e.g. C01Record, C01Builtin)."""
+    d = os.path.join(LEAN_DIR, "MafModel", "Props")
+    out = []
+    if os.path.isdir(d):
+        for f in sorted(os.listdir(d)):
+            m = re.match(r"^(%s)([A-Z][A-Za-z]*)?\.lean$" % pid, f)
+            if m:
+                out.append(f[:-5])
+    return out
+
+
 def theorem_names(pid):
-    """Fully qualified names of the theorems stated in Props/<pid>.lean."""
-    path = props_file(pid)
-    if not os.path.exists(path):
-        return []
+    """Fully qualified names of the theorems stated in Props/<pid>*.lean."""
+    out = []
+    for mod in props_modules(pid):
+        out += theorem_names_file(os.path.join(LEAN_DIR, "MafModel", "Props", mod + ".lean"))
+    return out
+
+
+def theorem_names_file(path):
     ns = []
     out = []
     with open(path) as h:
@@ -97,7 +113,7 @@ def audit(pid):
     names = theorem_names(pid)
     if not names:
         return {}, "no theorems"
-    src = "import MafModel.Props.%s\n" % pid + "".join("#print axioms %s\n" % n for n in names)
+    src = "".join("import MafModel.Props.%s\n" % m for m in props_modules(pid)) + "".join("#print axioms %s\n" % n for n in names)
     path = os.path.join(LEAN_DIR, ".lake", "audit_%s.lean" % pid)
     with open(path, "w") as h:
         h.write(src)
@@ -105,10 +121,13 @@ def audit(pid):
                        stderr=subprocess.STDOUT, text=True, timeout=900)
     res = {}
     text = p.stdout
+    norm = {n.replace("«", "").replace("»", ""): n for n in names}
     for m in re.finditer(r"'([^']+)' depends on axioms: \[([^\]]*)\]", text, flags=re.S):
-        res[m.group(1)] = [a.strip() for a in m.group(2).replace("\n", " ").split(",") if a.strip()]
+        key = m.group(1).replace("«", "").replace("»", "")
+        res[norm.get(key, m.group(1))] = [a.strip() for a in m.group(2).replace("\n", " ").split(",") if a.strip()]
     for m in re.finditer(r"'([^']+)' does not depend on any axioms", text):
-        res[m.group(1)] = []
+        key = m.group(1).replace("«", "").replace("»", "")
+        res[norm.get(key, m.group(1))] = []
     if p.returncode != 0 or len(res) != len(names):
         return res, text[-2000:]
     return res, None
@@ -116,13 +135,13 @@ def audit(pid):
 
 def failing_theorems(pid, log):
     """Map build errors in Props/<pid>.lean to the theorem they fall in."""
-    path = props_file(pid)
-    if not os.path.exists(path):
-        return []
-    lines = open(path).read().splitlines()
     found = []
-    for m in re.finditer(r"Props/%s\.lean:(\d+):\d+:" % pid, log):
-        ln = int(m.group(1))
+    for m in re.finditer(r"Props/(%s[A-Za-z]*)\.lean:(\d+):\d+:" % pid, log):
+        path = os.path.join(LEAN_DIR, "MafModel", "Props", m.group(1) + ".lean")
+        if not os.path.exists(path):
+            continue
+        lines = open(path).read().splitlines()
+        ln = int(m.group(2))
         name = None
         for i in range(min(ln, len(lines)) - 1, -1, -1):
             mm = re.match(r"^(?:private\s+)?(?:theorem|example|def|lemma)\s+([^\s:({\[]+)?", lines[i])
@@ -231,7 +250,7 @@ def check(pid, tier, seed):
         ok, msg = run_gen()
         if not ok:
             broken.append(("translator", "verif/gen.py", msg))
-        targets = ["driver"] + (["MafModel.Props.%s" % pid] if os.path.exists(props_file(pid)) else [])
+        targets = ["driver"] + ["MafModel.Props.%s" % m for m in props_modules(pid)]
         bok, blog = lake_build(targets)
         driver_ok = os.path.exists(common.DRIVER)
         if not bok:
@@ -324,7 +343,7 @@ def check(pid, tier, seed):
     cov = {
         "obligations": max(n_obl, 1) if n_obl else 0,
         "discharged": n_ok,
-        "checker_cmd": "cd lean/MafModel && lake build MafModel.Props.%s && lake env lean .lake/audit_%s.lean" % (pid, pid),
+        "checker_cmd": "cd lean/MafModel && lake build %s && lake env lean .lake/audit_%s.lean" % (" ".join("MafModel.Props.%s" % m for m in props_modules(pid)), pid),
         "trusted_base": TRUSTED_BASE + getattr(mod, "TRUSTED_EXTRA", []),
         "theorems": {n: axioms.get(n) for n in names},
         "evaluations": out.evaluations,
